@@ -414,7 +414,11 @@ func cleanEnv() {
 	path := os.Getenv("PATH")
 	gd := os.Getenv("GODEBUG")
 	gr := os.Getenv("GORACE")
+	cov := os.Getenv("GOCOVERDIR")
 	os.Clearenv()
+	if cov != "" {
+		os.Setenv("GOCOVERDIR", cov) // ./check cover: statement coverage of go.sh reached by the workloads
+	}
 	os.Setenv("PATH", path)
 	os.Setenv("HOME", "/nonexistent/verif-home")
 	os.Setenv("GODEBUG", gd)
